@@ -58,7 +58,9 @@ func c12Worlds() []c12World {
 		w.Finish()
 		return w
 	}
-	for _, f := range [][]byte{{0x50, 0x80, 0x6f, 0, 0, 0}, {0, 0, 0, 0, 0, 0}, {0xff, 0xff, 0xff, 0xff, 0xff, 0xff}, {0xab, 0xcd, 0xef, 0x01, 0x23, 0x45}, {0x00, 0x90, 0x6e, 0xd5, 0, 0}, {0x80, 0, 0, 0, 0, 0x01}} {
+	for _, f := range [][]byte{{0x50, 0x80, 0x6f, 0, 0, 0}, {0, 0, 0, 0, 0, 0}, {0xff, 0xff, 0xff, 0xff, 0xff, 0xff}, {0xab, 0xcd, 0xef, 0x01, 0x23, 0x45}, {0x00, 0x90, 0x6e, 0xd5, 0, 0}, {0x80, 0, 0, 0, 0, 0x01},
+		// six octets that read as an encoding of something else: a nested OCTET STRING, a SEQUENCE, printable hex digits, a NUL-padded string
+		{0x04, 0x04, 0xa1, 0xb2, 0xc3, 0xd4}, {0x30, 0x04, 0x02, 0x02, 0x01, 0x00}, {'5', '0', '8', '0', '6', 'f'}, {'a', 'b', 0, 0, 0, 0}, {0x25, 0x32, 0x35, 0x26, 0x3d, 0x3f}} {
 		add("honest/fmspc="+hexs(f), honest(f), nil)
 	}
 	{ // processor CA as issuer of the leaf (the library only accepts the platform CA name; the CRL request must still name "processor")
